@@ -54,9 +54,16 @@ func genDeliveryScript(r *rand.Rand, kind Kind, half bool, allowBig bool) *Scrip
 	} else {
 		s.Receiver = []Op{{Op: "recv"}}
 	}
-	if r.Intn(3) == 0 {
+	switch r.Intn(6) {
+	case 0:
 		// ask for the headers first, as applications often do
 		s.Receiver = append([]Op{{Op: "header"}}, s.Receiver...)
+	case 1:
+		// several askers (an interceptor and the application), also between receives
+		s.Receiver = append([]Op{{Op: "header"}, {Op: "header"}}, s.Receiver...)
+		if kind.ServerStreams() {
+			s.Receiver = []Op{{Op: "header"}, {Op: "header"}, {Op: "recv"}, {Op: "header"}, {Op: "recvall"}}
+		}
 	}
 	s.MutateAfterSend = r.Intn(2) == 0
 	s.RecvAfterSend = half || r.Intn(3) == 0
@@ -292,6 +299,9 @@ func checkC01(e *core.Env) {
 		}
 		concurrentBatch(e, c, scripts)
 	})
+
+	// unary replies that break off in transit must never be delivered as (partial) messages
+	unaryCutPhase(e, "delivery/http", e.N(6, 60))
 
 	if e.Thorough() {
 		// very large payloads
